@@ -195,3 +195,146 @@ Proof.
       * destruct (L t) as [A B C D E]. constructor; sp; rewrite ?F1, ?F2, ?F3, ?F4, ?F5, ?updt_same; try assumption; discriminate.
       * apply (LInv_same s); sp; rewrite ?F1, ?F2, ?F3, ?F4, ?F5, ?updt_other by assumption; try reflexivity. apply L.
 Qed.
+
+Theorem lost_rule_reachable c nw s : reach c nw s -> forall t, LInv s t.
+Proof. induction 1 as [|s l s' R IH H]; [intro; apply LInv_init|eapply LInv_step; eassumption]. Qed.
+
+(* ------------------------------------------------------------------ meaning of well_marked *)
+Definition is_drop (e : pev) : Prop := match e with Drop _ => True | _ => False end.
+Lemma well_marked_pending l e l3 : Forall is_drop l -> ~ is_drop e -> well_marked true (l ++ e :: l3) = true ->
+  exists n lr, e = Marker n lr /\ n <> 0%N.
+Proof.
+  induction 1 as [|x l Hx _ IH]; intros He H; cbn in H.
+  - destruct e as [r|n lr|r]; cbn in H; [discriminate| |exfalso; apply He; exact I].
+    exists n, lr. split; [reflexivity|]. destruct (N.eqb_spec n 0); [discriminate|assumption].
+  - destruct x; try destruct Hx. apply IH; assumption.
+Qed.
+(* after a dropped record the next thing the thread puts into a buffer is a LOST marker with a non-zero count *)
+Lemma well_marked_meaning p l : well_marked p l = true ->
+  forall l1 r ds e l3, l = l1 ++ Drop r :: ds ++ e :: l3 -> Forall is_drop ds -> ~ is_drop e ->
+  exists n lr, e = Marker n lr /\ n <> 0%N.
+Proof.
+  intros H l1. revert p l H. induction l1 as [|x l1 IH]; intros p l H r ds e l3 -> Hd He.
+  - cbn in H. eapply well_marked_pending; eassumption.
+  - cbn in H. destruct x; cbn in H.
+    + apply andb_prop in H. destruct H as [_ H]. eapply IH; [exact H|reflexivity|assumption|assumption].
+    + apply andb_prop in H. destruct H as [_ H]. eapply IH; [exact H|reflexivity|assumption|assumption].
+    + eapply IH; [exact H|reflexivity|assumption|assumption].
+Qed.
+
+Lemma dropped_of_app l1 l2 : dropped_of (l1 ++ l2) = dropped_of l1 ++ dropped_of l2.
+Proof. apply flat_map_app. Qed.
+
+Lemma find_free_ext s0 s t : flag s0 = flag s -> nbuf s0 t = nbuf s t -> find_free s0 t = find_free s t.
+Proof.
+  intros Hf Hn. unfold find_free. rewrite Hn.
+  assert (G : forall k i, find_free_from s0 t i k = find_free_from s t i k).
+  { induction k as [|k IH]; intro i; cbn; [reflexivity|].
+    rewrite Hf. destruct (f_rec (flag s (t, i))); [apply IH|reflexivity]. }
+  apply G.
+Qed.
+
+(* a record is dropped only by a P_emit whose allocation was refused while every buffer of the ring was
+   still RECORDING; it is dropped whole and nothing else happens to the thread's output in that step *)
+Theorem drop_only_on_alloc_failure c s l s' t : step c s l = Some s' -> dropped s' t <> dropped s t ->
+  exists r, l = P_emit t r false /\ find_free s t = None /\
+            dropped s' t = dropped s t ++ [r] /\ emitted s' t = emitted s t.
+Proof.
+  intros H Hd. destruct (is_rec_label l) eqn:Hl.
+  { destruct (rec_step_pfields c s l s' Hl H) as (F1 & _). exfalso. apply Hd. unfold dropped. rewrite F1. reflexivity. }
+  destruct l as [t0|t0 r ok|t0 n|t0| | | | | | | | |]; try discriminate; cbn [step] in H.
+  - exfalso. apply Hd. unfold p_start in H. destruct (_ && _); [|discriminate]. injection H as <-. reflexivity.
+  - unfold p_emit in H. destruct (p_live s t0) eqn:Lv; [|discriminate].
+    apply p_live_spec in Lv. destruct Lv as (Hn & Hdn & Es).
+    assert (Hsw : forall s0, plog s0 = plog s -> nbuf s0 t0 = nbuf s t0 -> find_free s0 t0 = find_free s t0 ->
+                  dropped (switch s0 t0 r ok) t <> dropped s t ->
+                  t0 = t /\ ok = false /\ find_free s t0 = None /\ dropped (switch s0 t0 r ok) t = dropped s t ++ [r] /\
+                  emitted (switch s0 t0 r ok) t = emitted s t).
+    { intros s0 P0 N0 FF Hd0. unfold switch in *. rewrite FF in *. destruct (find_free s t0) as [idx|] eqn:F.
+      - exfalso. apply Hd0. unfold find_free in F. apply find_free_from_spec in F.
+        destruct (take_pfields s0 t0 idx r) as ((lr & P) & _ & _ & _ & _ & Oth); [lia|].
+        unfold dropped. destruct (Nat.eq_dec t t0) as [->|Hne].
+        + rewrite P, P0, dropped_of_app. destruct (losts s0 t0 =? 0)%N; cbn; apply app_nil_r.
+        + destruct (Oth t Hne) as (-> & _). rewrite P0. reflexivity.
+      - destruct ok.
+        + exfalso. apply Hd0.
+          destruct (take_pfields (grow s0 t0) t0 (nbuf s0 t0) r) as ((lr & P) & _ & _ & _ & _ & Oth); [unfold grow; sp; rewrite updt_same; lia|].
+          unfold dropped. destruct (Nat.eq_dec t t0) as [->|Hne].
+          * rewrite P. change (plog (grow s0 t0)) with (plog s0). change (losts (grow s0 t0)) with (losts s0).
+            rewrite P0, dropped_of_app. destruct (losts s0 t0 =? 0)%N; cbn; apply app_nil_r.
+          * destruct (Oth t Hne) as (-> & _). change (plog (grow s0 t0)) with (plog s0). rewrite P0. reflexivity.
+        + unfold alloc_failed, dropped, emitted in *; sp_all. rewrite P0 in *. unfold updt in *.
+          destruct (Nat.eqb_spec t t0) as [->|Hne]; [|exfalso; apply Hd0; reflexivity].
+          repeat split; auto; [rewrite dropped_of_app; reflexivity|rewrite emitted_of_app; cbn; apply app_nil_r]. }
+    destruct (curr s t0) as [i|] eqn:Hc.
+    + destruct (size s (t0, i) + length r <=? maxsize c); injection H as <-.
+      * exfalso. apply Hd. destruct (append_rec_fields s t0 i r) as (_ & A2 & _). cbv zeta in A2. unfold dropped. rewrite A2.
+        unfold updt. destruct (Nat.eqb_spec t t0) as [->|]; [|reflexivity]. rewrite dropped_of_app. cbn. apply app_nil_r.
+      * match type of Hd with dropped (switch ?s0 _ _ _) _ <> _ =>
+          destruct (Hsw s0 eq_refl eq_refl (find_free_ext s0 s t0 eq_refl eq_refl) Hd) as (-> & -> & F & D1 & E1) end. exists r. auto.
+    + injection H as <-. destruct (Hsw s eq_refl eq_refl eq_refl Hd) as (-> & -> & F & D1 & E1). exists r. auto.
+  - exfalso. apply Hd. unfold p_addlost in H. destruct (p_live s t0); [|discriminate]. destruct (curr s t0); [discriminate|].
+    injection H as <-. reflexivity.
+  - exfalso. apply Hd. unfold p_finish in H. destruct (p_live s t0); [|discriminate]. injection H as <-.
+    unfold dropped; sp. destruct (curr s t0); [destruct (f_rec _)|]; reflexivity.
+Qed.
+
+(* ------------------------------------------------------------------ the loss that is never reported:
+   if the allocation fails for the rest of the thread's life, no LOST marker is written and no LOST message
+   is sent: the recorder finishes with shmem_lost_count = 0 although records were dropped *)
+Definition r16 (k : N) : list N := enc_rec k UFTRACE_ENTRY 0 7.
+Definition tail_loss_trace : list label :=
+  [P_start 0; P_emit 0 (r16 1) true; P_emit 0 (r16 2) true; P_emit 0 (r16 3) false; P_finish 0;
+   M_msg; M_msg; M_msg; M_msg; W_pick 0; W_write 0; W_release 0; W_write 0; W_release 0; W_splice 0;
+   M_stop; M_join].
+Lemma tail_loss_unreported_refuted :
+  exists s, run {| maxsize := 16 |} (init 1) tail_loss_trace = Some s /\ finished s = true /\
+            dropped s 0 = [r16 3] /\ lostcnt s = 0%N /\ chan s = [] /\
+            bytes_of (file s 0) = r16 1 ++ r16 2.
+Proof.
+  destruct (run {| maxsize := 16 |} (init 1) tail_loss_trace) as [s|] eqn:E; [|vm_compute in E; discriminate].
+  exists s. split; [reflexivity|]. vm_compute in E. injection E as <-. vm_compute. repeat split; reflexivity.
+Qed.
+
+(* ------------------------------------------------------------------ non-vacuity: two threads, two writers, buffers of
+   two records, one buffer reuse, one refused allocation followed by a LOST marker, a direct hand-over to a
+   busy writer; the run ends finished with both files exact *)
+Definition nv_trace : list label :=
+  [P_start 0; P_start 1;
+   P_emit 0 (r16 1) true; P_emit 0 (r16 2) true; P_emit 1 (r16 11) true; P_emit 0 (r16 3) true;   (* t0: buf0 full -> buf1 *)
+   M_msg; M_msg; M_msg; M_msg;                               (* START 0.0, START 1.0, END 0.0 -> bwl, START 0.1 *)
+   W_pick 0; W_write 0;                                      (* writer 0 works for thread 0, file written, not released *)
+   P_emit 0 (r16 4) true; P_emit 0 (r16 5) false;            (* buf1 full, buf0 still RECORDING, allocation refused: drop *)
+   M_msg;                                                    (* END 0.1 goes directly to writer 0 *)
+   W_release 0;                                              (* buf0 released *)
+   P_emit 0 (r16 6) true;                                    (* reuse of buf0: LOST marker + record *)
+   P_emit 1 (r16 12) true; P_emit 1 (r16 13) true;
+   W_splice 0; W_write 0; W_release 0; W_splice 0;
+   M_msg; M_msg; M_msg; M_msg;                               (* START 0.0, LOST, END 1.0, START 1.1 *)
+   W_pick 1; W_write 1; W_release 1; W_splice 1;
+   P_finish 1; M_msg;
+   M_stop; W_pick 0; W_write 0; W_release 0; W_splice 0; M_join; M_flush1; M_rem1].
+Lemma nv_run :
+  exists s, run {| maxsize := 32 |} (init 2) nv_trace = Some s /\ finished s = true /\
+    bytes_of (file s 0) = r16 1 ++ r16 2 ++ r16 3 ++ r16 4 ++ lostrec 2 0 ++ r16 6 /\
+    bytes_of (file s 1) = r16 11 ++ r16 12 ++ r16 13 /\
+    dropped s 0 = [r16 5] /\ lostcnt s = 2%N /\ gmark s = 2%N.
+Proof.
+  destruct (run {| maxsize := 32 |} (init 2) nv_trace) as [s|] eqn:E; [|vm_compute in E; discriminate].
+  exists s. split; [reflexivity|]. vm_compute in E. injection E as <-. vm_compute. repeat split; reflexivity.
+Qed.
+
+(* the run-time checker accepts the model's own result for every thread *)
+Lemma list_eqb_refl (l : list N) : list_eqb N.eqb l l = true.
+Proof. induction l as [|x l IH]; cbn; [reflexivity|]. rewrite N.eqb_refl, IH. reflexivity. Qed.
+Theorem ok_thread_model c nw s t : reach c nw s -> finished s = true ->
+  ok_thread (plog s t) (bytes_of (file s t)) = true.
+Proof.
+  intros R F. unfold ok_thread. destruct (final_exact c nw s R F t) as [_ E]. rewrite E.
+  unfold emitted. rewrite list_eqb_refl. cbn. apply (L_wm s t (lost_rule_reachable c nw s R t)).
+Qed.
+
+Theorem lost_marker_reachable c nw s t : reach c nw s ->
+  well_marked false (plog s t) = true /\
+  (pending_after false (plog s t) = true <-> losts s t <> 0%N).
+Proof. intro R. destruct (lost_rule_reachable c nw s R t) as [A B _ _ _]. exact (conj A B). Qed.
